@@ -156,6 +156,54 @@ func caseOne(f, text string) Case {
 		NonTrivial: ff != nil, Stream: "one"}
 }
 
+// caseOneEdge: a text whose fields are at or beyond what a calendar / clock has. reject = the text denotes no instant
+// (month 13, 30 February, hour 24, minute 60, a zone of 25 hours ...): the format must not date it.
+func caseOneEdge(f, text string, reject bool) Case {
+	cs := caseOne(f, text)
+	cs.Stream = "field-bounds"
+	cs.NonTrivial = true
+	if reject && !strings.Contains(cs.Coq, "None") {
+		cs.Oracle = &Violation{Class: "collector-impossible-field-accepted", Detail: fmt.Sprintf("format %q dates %q", f, text)}
+	}
+	if !reject && strings.HasSuffix(strings.TrimSpace(cs.Coq), "None)") {
+		cs.Oracle = &Violation{Class: "collector-boundary-field-rejected", Detail: fmt.Sprintf("format %q does not date %q", f, text)}
+	}
+	return cs
+}
+
+var fieldBounds = []struct {
+	f, text string
+	reject  bool
+}{
+	{"YYYY-MM-DD HH:mm:ss", "2019-12-31 23:59:59", false}, {"YYYY-MM-DD HH:mm:ss", "2019-01-01 00:00:00", false},
+	{"YYYY-MM-DD HH:mm:ss", "2019-13-01 10:00:00", true}, {"YYYY-MM-DD HH:mm:ss", "2019-00-10 10:00:00", true},
+	{"YYYY-MM-DD HH:mm:ss", "2019-02-29 10:00:00", true}, {"YYYY-MM-DD HH:mm:ss", "2020-02-29 10:00:00", false},
+	{"YYYY-MM-DD HH:mm:ss", "2020-02-30 10:00:00", true}, {"YYYY-MM-DD HH:mm:ss", "2019-04-31 10:00:00", true},
+	{"YYYY-MM-DD HH:mm:ss", "2100-02-29 10:00:00", true}, {"YYYY-MM-DD HH:mm:ss", "2000-02-29 10:00:00", false},
+	{"YYYY-MM-DD HH:mm:ss", "2019-03-00 10:00:00", true}, {"YYYY-MM-DD HH:mm:ss", "2019-03-32 10:00:00", true},
+	{"YYYY-MM-DD HH:mm:ss", "2019-03-11 24:00:00", true}, {"YYYY-MM-DD HH:mm:ss", "2019-03-11 23:60:00", true},
+	{"YYYY-MM-DD HH:mm:ss", "2019-03-11 23:59:60", true}, {"YYYY-MM-DD HH:mm:ss", "1000-01-01 00:00:00", false},
+	{"YYYY-MM-DD HH:mm:ss", "2999-12-31 23:59:59", false}, {"YYYY-MM-DD HH:mm:ss", "0999-12-31 23:59:59", true},
+	{"YYYY-MM-DD HH:mm:ss", "3000-01-01 00:00:00", true},
+	{"D/M/YYYY hh:mm:ss P", "1/1/2019 12:00:00 AM", false}, {"D/M/YYYY hh:mm:ss P", "1/1/2019 12:00:00 PM", false},
+	{"D/M/YYYY hh:mm:ss P", "1/1/2019 13:00:00 PM", true}, {"D/M/YYYY hh:mm:ss P", "1/1/2019 00:30:00 AM", false},
+	{"D/M/YYYY hh:mm:ss P", "1/1/2019 00:30:00 PM", false},
+	{"D/M/YYYY hh:mm:ss P", "32/1/2019 01:00:00 AM", true}, {"D/M/YYYY hh:mm:ss P", "1/13/2019 01:00:00 AM", true}, {"D/M/YYYY hh:mm:ss P", "0/1/2019 01:00:00 AM", true},
+	{"YYYY-MM-DD HH:mm:ss ZZZZ", "2019-03-11 12:00:00 +0000", false}, {"YYYY-MM-DD HH:mm:ss ZZZZ", "2019-03-11 12:00:00 -0000", false},
+	{"YYYY-MM-DD HH:mm:ss ZZZZ", "2019-03-11 12:00:00 +1400", false}, {"YYYY-MM-DD HH:mm:ss ZZZZ", "2019-03-11 12:00:00 -1200", false},
+	{"YYYY-MM-DD HH:mm:ss ZZZZ", "2019-03-11 12:00:00 +2359", false}, {"YYYY-MM-DD HH:mm:ss ZZZZ", "2019-03-11 12:00:00 +2500", true},
+	{"YYYY-MM-DD HH:mm:ss ZZZZ", "2019-03-11 12:00:00 +0061", true}, {"YYYY-MM-DD HH:mm:ss ZZZZZ", "2019-03-11 12:00:00 +05:30", false},
+	{"YYYY-MM-DD HH:mm:ss ZZZZZ", "2019-03-11 12:00:00 -23:59", false}, {"YYYY-MM-DD HH:mm:ss ZZZZZ", "2019-03-11 12:00:00 +25:00", true},
+	{"YYYY-MM-DD HH:mm:ss.SSS", "2019-03-11 12:34:55.000", false}, {"YYYY-MM-DD HH:mm:ss.SSS", "2019-03-11 12:34:55.999", false},
+	{"YYYY-MM-DD HH:mm:ss.SSS", "2019-03-11 12:34:55.123456", false}, {"YYYY-MM-DD HH:mm:ss.SSS", "2019-03-11 12:34:55.123456789", false},
+	{"YYYY-MM-DD HH:mm:ss.SSS", "2019-03-11 12:34:55.1234567891", false}, {"YYYY-MM-DD HH:mm:ss.SSS", "2019-03-11 12:34:55.12", true},
+	{"YYYY-MM-DD HH:mm:ss.SSS", "2019-03-11 12:34:55,123", false}, {"YYYY-MM-DD HH:mm:ss", "2019-03-11 12:34:55.12", false},
+	{"YYYY-MM-DD HH:mm:ss", "2019-03-11 12:34:55,5", false},
+	{"DD/MM/YY", "31/12/68", false}, {"DD/MM/YY", "01/01/69", false}, {"DD/MM/YY", "29/02/00", false}, {"DD/MM/YY", "29/02/01", true},
+	{"MMM _D HH:mm:ss", "Feb 29 10:00:00", false}, {"MMM _D HH:mm:ss", "Feb 30 10:00:00", true}, {"MMM _D HH:mm:ss", "Dec 31 23:59:59", false}, {"MMM _D HH:mm:ss", "Jan  1 00:00:00", false},
+	{"HH:mm", "00:00", false}, {"HH:mm", "23:59", false}, {"HH:mm", "24:00", true}, {"HH:mm", "9:05", true},
+}
+
 func caseAll(li int, text string) Case {
 	var tm time.Time
 	var ff *date.Format
@@ -293,9 +341,22 @@ func caseRel(lit string, exact bool, keep *[]relObs) Case {
 	if !exact {
 		slack = 1 + int64(math.Abs(num*mult)/float64(1<<50))
 	}
-	cs := Case{Coq: GApp("KRel", GStr(lit), GZ(lo), GZ(hi), GZ(obs), GZ(slack)), Replay: Replay{Kind: "rel", Text: lit, Exact: exact},
+	if math.Abs(num*mult) >= float64(1<<63)-2048 {
+		// the product does not fit a time.Duration: what the float64 -> int64 conversion gives depends on the machine
+		// (outside the model); the oracle still asks for "not later than now"
+		slack = 1 << 62
+	}
+	gSlack := GZ(slack)
+	if slack >= 1<<62 {
+		gSlack = "1" + strings.Repeat("0", 40) + "%Z" // no bound from K: the conversion of the product is the machine's
+	}
+	cs := Case{Coq: GApp("KRel", GStr(lit), GZ(lo), GZ(hi), GZ(obs), gSlack), Replay: Replay{Kind: "rel", Text: lit, Exact: exact},
 		NonTrivial: true, Stream: "rel"}
-	if num >= 0 {
+	if num >= 0 && slack >= 1<<62 {
+		if obs > hi {
+			cs.Oracle = &Violation{Class: "lql-relative-later-than-now", Detail: fmt.Sprintf("%q -> %d, now <= %d", lit, obs, hi)}
+		}
+	} else if num >= 0 {
 		if obs > hi {
 			cs.Oracle = &Violation{Class: "lql-relative-later-than-now", Detail: fmt.Sprintf("%q -> %d, now <= %d", lit, obs, hi)}
 		}
@@ -387,6 +448,24 @@ func caseUser(usr []string, f string, c *Civil, text string) Case {
 	return cs
 }
 
+// addSplit adds a case; when its oracle verdict is one of the recorded classes, the verdict goes to a case of its own (with a
+// trivially true K term) so that the K comparison of the observations stays on a case without a verdict: the driver does not
+// look at a K disagreement of a case that O has already reported, and the recorded classes sit on exactly the cases (files with
+// ten undated lines, am/pm in lower case) where a change of the mechanism would show in K only
+func addSplit(c *Ctx, cs Case) {
+	if cs.Oracle != nil && (cs.Oracle.Class == "collector-line-not-dated-after-10-undated-lines" || cs.Oracle.Class == "collector-lowercase-ampm-wrong-instant") {
+		o := cs
+		o.Coq = GApp("KLines", "(0, 0, 0)%Z", "[]", "[]")
+		o.Key = "verdict:" + cs.Oracle.Detail
+		o.NonTrivial = false
+		cs.Oracle = nil
+		c.Add(cs)
+		c.Add(o)
+		return
+	}
+	c.Add(cs)
+}
+
 // ---------------------------------------------------------------- generators
 
 var offs = []int{0, 0, 60, -60, 330, -210, 765, -720, 840, -480, 120, 545}
@@ -464,7 +543,9 @@ func fit(r *Rng, fi *fmtInfo, c Civil, now Now, lqlRange bool) Civil {
 }
 
 var extraFormats = []string{"YYYY.MM.DD", "hh:mm P", "D-M-YY", "YYYYMMDD", "YYYY-MM-DD HH:mm:ss,SSS", "DDDD MMMM D YYYY", "h:m:s", "MMM D YYYY",
-	"YYYY-MM-DDTHH:mm:ss.SSSZZZZZ", "HH.mm.ss", "YY/MM/DD", "M/D/YYYY h:mm:ss P", "DD.MM.YYYY HH:mm:ss ZZZ"}
+	"YYYY-MM-DDTHH:mm:ss.SSSZZZZZ", "HH.mm.ss", "YY/MM/DD", "M/D/YYYY h:mm:ss P", "DD.MM.YYYY HH:mm:ss ZZZ",
+	// a day (or a weekday name) and nothing else of the date: the noDate / hasYear flags look at each of Y, M, D
+	"DD HH:mm:ss", "DDD HH:mm", "MM-DD HH:mm", "YYYY HH:mm"}
 
 const alphabet = "0123456789 :/-.,TZ+APMapm"
 
@@ -567,7 +648,7 @@ func run(c *Ctx) error {
 			if err != nil {
 				return err
 			}
-			c.Add(cs)
+			addSplit(c, cs)
 		default:
 			return fmt.Errorf("unknown case kind %q", rp.Kind)
 		}
@@ -722,6 +803,14 @@ func run(c *Ctx) error {
 	}
 	// ... and literals that look relative but are not (no number, two dots, letters, no unit): the relative reader refuses them
 	// and the literal goes on to the constants, the formats and the integer reader
+	// only blanks are trimmed around a literal (strings.Trim(s, " ")), not tabs or line breaks
+	for _, s := range []string{"\t5", "5\n", "\tminute", "minute\n", "-1h\t", " \t2019-03-11 12:00:00", "2019-03-11 12:00:00\n ", "\u00a05"} {
+		c.Add(caseLql(s, false, 0, Civil{}))
+	}
+	// leading zeros: decimal, not octal; a sign; the ends of int32 / uint32
+	for _, s := range []string{"010", "0017", "-010", "00", "-0", "+0", "0000000000000000000001", "2147483647", "2147483648", "-2147483649", "4294967295", "4294967296"} {
+		c.Add(caseLql(s, false, 0, Civil{}))
+	}
 	for _, s := range []string{"9223372036854775808", "-9223372036854775809", "12a", "1_000", "0x10", "1e3", "", " ", "--5", "+-5",
 		"-h", "-m", "-d", "-.h", "-1.2.3h", "-xm", "-1..5d", "-5", "-5s", "-5w", "-", "-1h2m", "- 1h", "-1 h", "minutes", "hours", "daily", "wee", "now"} {
 		c.Add(caseLql(s, false, 0, Civil{}))
@@ -737,6 +826,51 @@ func run(c *Ctx) error {
 		} else {
 			c.Add(caseRel(fmt.Sprintf("-%d.%0*d%s", r.Intn(500), r.Range(1, 6), r.Intn(1000), unit), false, &keep))
 		}
+	}
+	// ... and the ends: the longest duration a time.Duration holds is 106751.99 days; behind it the conversion overflows
+	for _, s := range []string{"-106751d", "-106751.9d", "-106752d", "-200000d", "-2562047h", "-2562048h", "-153722867m", "-153722868m", "-99999999999999999999d"} {
+		c.Add(caseRel(s, false, &keep))
+	}
+	// fields at and beyond what a calendar / a clock / a zone has
+	for _, b := range fieldBounds {
+		c.Add(caseOneEdge(b.f, b.text, b.reject))
+	}
+	// the am/pm marker in lower case: the regular expression of P admits it (am|AM|pm|PM); the text denotes the same instant
+	for li := 0; li < 2; li++ {
+		for k, f := range lists[li] {
+			fi := analyse(terms, f)
+			if !fi.known || !strings.Contains(f, " P") {
+				continue
+			}
+			for _, h := range []int{0, 9, 12, 15, 23} {
+				cv := fit(r, fi, Civil{Y: 2019, Mo: 12, D: 31, H: h, Mi: 59, S: 58}, now, li == 1)
+				text := fi.render(terms, cv)
+				low := strings.Replace(strings.Replace(text, "AM", "am", 1), "PM", "pm", 1)
+				var tm time.Time
+				var ff *date.Format
+				nw := withNow(func() { tm, ff = parsers[li].Parse([]byte(low + " job done")) })
+				obs := GNone
+				if ff != nil {
+					obs = GSome(GTuple(GNat(fmtIndex(parsers[li].VC20Formats(), ff)), gInst(tm)))
+				}
+				cs := Case{Coq: GApp("KAll", GNat(li), gNow(nw), GStr(low+" job done"), obs), Replay: Replay{Kind: "all", List: li, Text: low + " job done"},
+					NonTrivial: true, Stream: "ampm-lower"}
+				es, en := fi.expected(cv, nw)
+				if ff == nil || tm.Unix() != es || int64(tm.Nanosecond()) != en {
+					got := "no date"
+					if ff != nil {
+						got = tm.UTC().Format(time.RFC3339Nano) + " by " + ff.VC20Format()
+					}
+					cs.Oracle = &Violation{Class: "collector-lowercase-ampm-wrong-instant", Detail: fmt.Sprintf("%q (format %d %q of list %d with the marker in lower case) -> %s; want %s", low, k, f, li, got, time.Unix(es, en).UTC().Format(time.RFC3339Nano))}
+				}
+				addSplit(c, cs)
+			}
+		}
+	}
+	// LQL literals at and beyond the instants an int64 of nanoseconds holds (the value wraps: model wrap64)
+	for _, s := range []string{"2262-04-11 23:47:16.854", "2262-04-11 23:47:16.855", "2262-04-12", "1677-09-21 00:12:43.146", "1677-09-21 00:12:43.145", "1677-09-20",
+		"2999-12-31 23:59:59", "1000-01-01", "1970-01-01 00:00:00", "1969-12-31 23:59:59.999", "2038-01-19 03:14:08", "1901-12-13 20:45:52"} {
+		c.Add(caseLql(s, false, 0, Civil{}))
 	}
 	// named constants
 	for _, s := range []string{"minute", "hour", "day", "week", "MINUTE", "Hour", " day ", "WeeK", "  week", "hour  "} {
@@ -782,7 +916,46 @@ func run(c *Ctx) error {
 				if err != nil {
 					return err
 				}
-				c.Add(cs)
+				addSplit(c, cs)
+			}
+		}
+		// a designed file: every boundary of the state machine is followed by dated lines with distinct dates, so that the
+		// first line the parser looks at again is visible: 10 failures -> skipping 10; a failed parsing phase doubles it (20,
+		// 40); a detection resets it to 10; and a long tail with a dated line now and then (80, 100)
+		for k, f := range lists[0] {
+			if f == "YYYY-MM-DD HH:mm:ss" {
+				var ls []FileLine
+				n := 0
+				dated := func(cnt int) {
+					for i := 0; i < cnt; i++ {
+						n++
+						cv := Civil{Y: 2019, Mo: 1 + n%12, D: 1 + n%28, H: n % 24, Mi: n % 60, S: n % 60, Abbr: "UTC"}
+						ls = append(ls, FileLine{Dated: true, Civil: &cv, Text: analyse(terms, f).render(terms, cv) + " step"})
+					}
+				}
+				und := func(cnt int) {
+					for i := 0; i < cnt; i++ {
+						ls = append(ls, FileLine{Text: undated[(len(ls)+i)%len(undated)]})
+					}
+				}
+				dated(1)
+				und(9)
+				dated(2) // nine failures are not ten
+				und(10)
+				dated(14) // skipping 10, then dated lines: the 11th is looked at
+				und(10 + 10 + 10 + 20 + 10)
+				dated(45) // skipping 40: the 41st is looked at, the phase length is back to 10
+				und(10)
+				dated(25) // ... so only 10 of these are skipped
+				und(10 + 10 + 10 + 20 + 10 + 40 + 10 + 80 + 10)
+				dated(105) // skipping 100 (80 doubled is 160? no: doubled while below 100)
+				und(3)
+				dated(2)
+				cs, err := caseLines(k, ls, -1)
+				if err != nil {
+					return err
+				}
+				addSplit(c, cs)
 			}
 		}
 		for i := 0; i < c.N(60); i++ {
@@ -798,7 +971,7 @@ func run(c *Ctx) error {
 			if err != nil {
 				return err
 			}
-			c.Add(cs)
+			addSplit(c, cs)
 		}
 	}
 	c.Note("formats", map[string]int{"collector": len(lists[0]), "lql": len(lists[1]), "terms": len(terms)})
